@@ -49,7 +49,7 @@ TEXTS = {
             "level_text": sim_text("around every explicit save: the sets of jobs before/after, the content of data.json, GET /pipelines/jobs and the log directory listing are compared against the constraints of the statement (only finished jobs removed, count/period bounds, newest kept first, undefined pipelines purged, logs removed with their job and untouched otherwise).") + " The population comes from a generated pre-loaded store (ages, states, undefined pipelines) plus live activity and reloads.",
             "level_note": SIM_NOTE + " Ages at the period boundary are not generated (no clock injection). A stricter reference policy is computed too; disagreements that still satisfy the statement are only counted in the evidence."},
     "C13": {"engine": "stress", "design_ref": "DESIGN.md 3/C13", "technique": "generated concurrent workloads (rapid) over every exported operation and HTTP route under the Go race detector; runtime faults and race reports as oracle",
-            "level_text": "Each case is a generated workload: 4-12 client goroutines with generated operation sequences over schedule/cancel/read/iterate/list/reload/save and all HTTP routes, self-finishing tasks with failures, real millisecond start delays, retention and a pipeline that comes and goes (so that saves delete), and a shutdown overlapping the clients. The binary is built with -race; any race report, concurrent-map fault, panic or hang fails the check; C01/C02 monitors run on the runner's own log. The overlap histogram (operation kinds in flight, saves overlapping readers) is measured and reported.",
+            "level_text": "Each case is a generated workload: 4-12 client goroutines with generated operation sequences over schedule/cancel/read/iterate/list/reload/save and all HTTP routes, self-finishing tasks with failures, real millisecond start delays, retention and a pipeline that comes and goes (so that saves delete), and a shutdown overlapping the clients. The binary is built with -race; any race report, concurrent-map fault, panic or hang fails the check; C01/C02 monitors run on the runner's own log. The overlap histogram (operation kinds in flight, saves overlapping readers) is measured and reported. A second part runs workloads of schedule/cancel/read with the real taskctl.TaskRunner (scripts of interpreter builtins, no processes) so that the runner's own Run/Cancel/callback synchronisation is under the detector.",
             "level_note": "Weakest claim of the set: interleavings are the Go scheduler's, found by chance; the detector proves nothing about paths the workloads do not overlap. Trusted: race detector, runtime map checks."},
     "C14": {"engine": "httpauth", "design_ref": "DESIGN.md 3/C14", "technique": "enumerate routes (chi.Walk) x generated invalid credentials x transports; no-effect and no-leak oracle",
             "level_text": "Property-based enumeration: the route list comes from the router itself, every route/method/slash variant is probed with generated invalid credentials of 23 classes over 6 transports; the oracle is the status (401 on registered routes, never 2xx), absence of planted markers in the body and an unchanged runner state; positive controls with a valid token keep the oracle non-vacuous. A harness-side validity predicate excludes generated credentials that are in fact validly signed.",
